@@ -90,7 +90,8 @@ def run_config(run, prop, name, consts, wd, seed, vertex_cls="mixed", caching=Fa
                         "text": r.get("text"), "parsed": r["res"]})
 
     _, confirmed, st, _ = explore.explore(consts, ST.base_state(consts), index, index, probe=spec, vertex_cls=vertex_cls,
-                                          keep_records=False, caching=caching, probe_sink=probe_sink, probe_filter=probe_filter)
+                                          keep_records=False, caching=caching, probe_sink=probe_sink, probe_filter=probe_filter,
+                                          probe_chunk=(400, 20000))
     t2 = time.time()
     st.update({"renderings": agg["n"], "failing": agg["bad"], "t_generate_s": round(t1 - t0, 1),
                "t_execute_and_judge_s": round(t2 - t1, 1), "t_judge_s": round(agg["judge_s"], 1)})
